@@ -11,18 +11,51 @@ BUILD = os.path.join(VERIF, "build", "replayer" if REPO == "/repo" else "replaye
 TARGET = os.path.join(VERIF, "build", "replayer-target")
 
 
+def _cleanup_scratch_build():
+    # build directories of scratch trees (strength audit, seed evaluation) are only needed while this process runs
+    if REPO != "/repo":
+        shutil.rmtree(BUILD, ignore_errors=True)
+
+
 def build():
+    import atexit
+    if not getattr(build, "_registered", False):
+        atexit.register(_cleanup_scratch_build)
+        build._registered = True
     os.makedirs(os.path.join(BUILD, "src"), exist_ok=True)
     t = open(os.path.join(VERIF, "replayer", "Cargo.toml.in")).read().replace("@REPO@", REPO)
     open(os.path.join(BUILD, "Cargo.toml"), "w").write(t)
     shutil.copy(os.path.join(VERIF, "replayer", "src", "main.rs"), os.path.join(BUILD, "src", "main.rs"))
     shutil.copy(os.path.join(REPO, "Cargo.lock"), os.path.join(BUILD, "Cargo.lock"))
     env = dict(os.environ, CARGO_NET_OFFLINE="true", CARGO_TARGET_DIR=TARGET)
-    p = subprocess.run(["cargo", "build", "--offline", "--quiet"], cwd=BUILD, env=env,
-                       stdout=subprocess.PIPE, stderr=subprocess.STDOUT, text=True)
-    if p.returncode != 0:
-        raise RuntimeError("replayer build failed: " + p.stdout[-800:])
-    return os.path.join(TARGET, "debug", "replayer")
+    # the target directory (and with it the compiled dependencies) is shared between working trees; checks that run at the same
+    # time against different trees must not run each other's binary, so build + copy happen under one lock and the copy is used
+    import fcntl
+    os.makedirs(TARGET, exist_ok=True)
+    with open(os.path.join(TARGET, ".verif-build-lock"), "w") as lk:
+        fcntl.flock(lk, fcntl.LOCK_EX)
+        import time as _time
+        t_start = _time.time() - 1
+        p = subprocess.run(["cargo", "build", "--offline", "--quiet"], cwd=BUILD, env=env,
+                           stdout=subprocess.PIPE, stderr=subprocess.STDOUT, text=True)
+        if p.returncode != 0:
+            raise RuntimeError("replayer build failed: " + p.stdout[-800:])
+        out = os.path.join(BUILD, "replayer-bin")
+        shutil.copy2(os.path.join(TARGET, "debug", "replayer"), out + ".new")
+        os.replace(out + ".new", out)
+        if REPO != "/repo":
+            # what this build added for the scratch tree (its own copy of the crate, the replayer linked against it, incremental
+            # state) is of no use to any later build: remove it, still under the lock, so that the shared directory does not grow
+            dbg = os.path.join(TARGET, "debug")
+            for sub in ("deps", "incremental", ".fingerprint"):
+                d = os.path.join(dbg, sub)
+                if not os.path.isdir(d):
+                    continue
+                for f in os.listdir(d):
+                    if ("bitcask" in f or "replayer" in f) and os.path.getmtime(os.path.join(d, f)) >= t_start:
+                        q = os.path.join(d, f)
+                        shutil.rmtree(q, ignore_errors=True) if os.path.isdir(q) else os.unlink(q)
+    return out
 
 
 def _run(binary, args, timeout=300, prop=None):
